@@ -41,6 +41,8 @@ HINTS = {
     "ints": ("list[int]", "int[]", [[1], [2, 3], []]),
     "strs": ("tuple[str, ...]", "string[]", [["a"], ["b", "c"]]),
     "bools": ("Sequence[bool]", "boolean[]", [[True], [False, True]]),
+    "rot": ("Rotation2d", "struct:Rotation2d", [{"rot": 0.0}, {"rot": 0.5}, {"rot": 1.0}]),
+    "trs": ("list[Translation2d]", "struct:Translation2d[]", [[{"tr": [1.0, 2.0]}], [], [{"tr": [0.0, 0.0]}, {"tr": [3.0, -1.0]}]]),
     None: (None, None, None),
 }
 UNTYPED_POOLS = [
@@ -117,7 +119,7 @@ def gen_config(rng, prop):
 
 
 def _gen_fb(rng, j, owner="comp"):
-    hint = rng.choice(["int", "float", "bool", "str", "floats", "ints", "strs", "bools", None, None])
+    hint = rng.choice(["int", "float", "bool", "str", "floats", "ints", "strs", "bools", "rot", "trs", None, None])
     name = rng.choice([f"get_v{j}", f"v{j}", f"get_state{j}", f"is_ok{j}"])
     fb = {"name": name, "key": (rng.choice([f"k{j}", f"sub/key{j}", "Name With Space" + str(j)]) if rng.random() < 0.3 else None), "hint": hint,
           "inplace": False, "constant": rng.random() < 0.25}
@@ -427,6 +429,8 @@ def generate(seed, prop, tier, index=0):
         for _ in range(rng.choice([0, 0, 1, 2, 3])):
             if allfb:
                 owner, fb = rng.choice(allfb)
+                if fb["hint"] in ("rot", "trs"):
+                    continue
                 key = ("/robot/" if owner == "robot" else f"/components/{owner}/") + fb_key(fb)
                 pool = HINTS[fb["hint"]][2] if fb["hint"] is not None else [v for t, vs in UNTYPED_POOLS if t == fb["nt_type"] for v in vs]
                 other = [v for v in pool if v != fb["values"][0]] or pool
@@ -470,7 +474,8 @@ def _machine_states_source(prefix, machine, flavour):
 
 def build_sources(cfg):
     """Returns (robot_source, {module_name: source}) for the generated robot and its autonomous package."""
-    L = ["import magicbot", "from magicbot import will_reset_to, feedback, tunable, state, timed_state, default_state", "from collections.abc import Sequence", "",
+    L = ["import magicbot", "from magicbot import will_reset_to, feedback, tunable, state, timed_state, default_state", "from collections.abc import Sequence",
+         "from wpimath.geometry import Rotation2d, Translation2d", "",
          "class Dep:", "    pass", ""]
     for c in cfg["components"]:
         nm = c["name"]
@@ -631,6 +636,7 @@ class _Sim:
                 self.fbvals[f"{owner}.fb.{fb['name']}"] = fb
         self.keys = sorted((c["name"], a["attr"]) for c in cfg["components"] for a in (c["resets"] + c["plain_attrs"]))
         self.boxes = {}
+        self.struct_subs = {}
         self.cur_owner = None
         self.clobber_pubs = {}
         self.snap_on = False
@@ -648,6 +654,12 @@ class _Sim:
     def fbval(self, site, n):
         fb = self.fbvals[site]
         v = fb_value(fb, n)
+        if fb["hint"] == "rot":
+            from wpimath.geometry import Rotation2d
+            return Rotation2d(v["rot"])
+        if fb["hint"] == "trs":
+            from wpimath.geometry import Translation2d
+            v = [Translation2d(x["tr"][0], x["tr"][1]) for x in v]
         if fb.get("inplace"):
             box = self.boxes.setdefault(site, [])
             box[:] = v          # same list object every iteration, contents replaced in place
@@ -786,6 +798,10 @@ class _Sim:
                 v = sub.get()
                 if v.isValid():
                     val = v.value()
+                    dec = self.struct_subs.get(key)
+                    if dec is not None:
+                        val = dec[0].get()
+                        val = {"rot": round(val.radians(), 9)} if dec[1] == "rot" else [{"tr": [t.X(), t.Y()]} for t in val]
                     fb[key] = list(val) if isinstance(val, (list, tuple)) else val
             self.log.append(["wait", n, w.now_us(), alarm, fb, None])
             if w.now_us() < alarm:
@@ -945,6 +961,12 @@ def execute(plan, trace=False):
             key = prefix + fb_key(fb)
             sim.fb_subs[key] = nt.getTopic(key).genericSubscribe()
             fb_types[key] = fb["nt_type"]
+            if fb["hint"] == "rot":
+                from wpimath.geometry import Rotation2d
+                sim.struct_subs[key] = (ntcore.StructTopic(nt.getTopic(key), Rotation2d).subscribe(Rotation2d(-9.0)), "rot")
+            elif fb["hint"] == "trs":
+                from wpimath.geometry import Translation2d
+                sim.struct_subs[key] = (ntcore.StructArrayTopic(nt.getTopic(key), Translation2d).subscribe([]), "trs")
     DS.setDsAttached(True)
     DS.setEnabled(False)
     DS.setAutonomous(False)
